@@ -30,13 +30,19 @@ import (
 )
 
 // outlineTarget describes which statement plays a role.
+// outlinePreferredName: the name the function in the role has in the reference tree (set per target).
+var outlinePreferredName string
+
 type outlineTarget struct {
 	role  string
+	name  string // the name of the function in this role in the reference tree
 	match func(nf *nfPass, rs *ast.RangeStmt) bool
+	// clause: the body of a case clause plays the role (the arm of a type switch over Selection for one kind)
+	clause func(nf *nfPass, sw *ast.TypeSwitchStmt, cc *ast.CaseClause) bool
 }
 
 var outlineTargets = []outlineTarget{
-	{"directive evaluator", func(nf *nfPass, rs *ast.RangeStmt) bool {
+	{"directive evaluator", "skipSel", func(nf *nfPass, rs *ast.RangeStmt) bool {
 		// for .. := range <Selection>.Directives()
 		call, ok := rs.X.(*ast.CallExpr)
 		if !ok || len(call.Args) != 0 {
@@ -52,6 +58,38 @@ var outlineTargets = []outlineTarget{
 		}
 		n, ok := tv.Type.(*types.Named)
 		return ok && n.Obj().Name() == "Selection"
+	}, nil},
+	{"inline fragment resolver", "resolveInline", nil, func(nf *nfPass, sw *ast.TypeSwitchStmt, cc *ast.CaseClause) bool {
+		// case *Inline: of a switch over a Selection, with more in it than one call
+		if len(cc.List) != 1 || len(cc.Body) == 0 {
+			return false
+		}
+		tv, ok := nf.info.Types[cc.List[0]]
+		if !ok {
+			return false
+		}
+		pt, ok := tv.Type.(*types.Pointer)
+		if !ok {
+			return false
+		}
+		n, ok := pt.Elem().(*types.Named)
+		if !ok || n.Obj().Name() != "Inline" {
+			return false
+		}
+		if len(cc.Body) == 1 {
+			// already a call of a function that takes the *Inline: somebody plays the role
+			if as, ok := cc.Body[0].(*ast.AssignStmt); ok && len(as.Rhs) == 1 {
+				if _, isCall := as.Rhs[0].(*ast.CallExpr); isCall {
+					return false
+				}
+			}
+			if es, ok := cc.Body[0].(*ast.ExprStmt); ok {
+				if _, isCall := es.X.(*ast.CallExpr); isCall {
+					return false
+				}
+			}
+		}
+		return true
 	}},
 }
 
@@ -72,6 +110,8 @@ func outlineForm(repo string, role string) (*nfResult, error) {
 	}
 	nf := &nfPass{p: p, fset: fset, info: p.TypesInfo, files: map[string][]byte{}}
 	nf.readFiles(res.overlay)
+	outlinePreferredName = tgt.name
+	defer func() { outlinePreferredName = "" }()
 	var edits []textEdit
 	n := 0
 	for _, f := range p.Syntax {
@@ -81,12 +121,34 @@ func outlineForm(repo string, role string) (*nfResult, error) {
 				continue
 			}
 			var found []*ast.RangeStmt
+			type span struct {
+				list        []ast.Stmt
+				first, last int
+			}
+			var spans []span
 			ast.Inspect(fd.Body, func(x ast.Node) bool {
-				if rs, ok := x.(*ast.RangeStmt); ok && tgt.match(nf, rs) {
+				if rs, ok := x.(*ast.RangeStmt); ok && tgt.match != nil && tgt.match(nf, rs) {
 					found = append(found, rs)
+				}
+				if sw, ok := x.(*ast.TypeSwitchStmt); ok && tgt.clause != nil {
+					for _, cl := range sw.Body.List {
+						if cc, ok := cl.(*ast.CaseClause); ok && tgt.clause(nf, sw, cc) {
+							spans = append(spans, span{cc.Body, 0, len(cc.Body) - 1})
+						}
+					}
 				}
 				return true
 			})
+			for _, sp := range spans {
+				n++
+				es, desc, why := nf.outlineSpan(f, fd, sp.list, sp.first, sp.last, false, n)
+				if why != "" {
+					res.kept = append(res.kept, fmt.Sprintf("%s in %s: %s", role, fd.Name.Name, why))
+					continue
+				}
+				edits = append(edits, es...)
+				res.inlined = append(res.inlined, desc)
+			}
 			for _, rs := range found {
 				n++
 				es, desc, why := nf.outlineStmt(f, fd, rs, n)
@@ -136,7 +198,18 @@ func (nf *nfPass) outlineStmt(f *ast.File, fd *ast.FuncDecl, rs *ast.RangeStmt, 
 	if idx < 0 {
 		return nil, "", "the loop is not a statement of a block (labelled, or the body of another statement)"
 	}
-	// exits and constructs that tie the loop to its host
+	return nf.outlineSpan(f, fd, list, idx, idx, true, id)
+}
+
+// spanNode lets the statements list[first..last] be walked as one node.
+type spanNode struct{ stmts []ast.Stmt }
+
+// outlineSpan builds the edits that take the statements list[first..last] out of fd. With pull, declarations of
+// written variables that stand immediately before the span move along.
+func (nf *nfPass) outlineSpan(f *ast.File, fd *ast.FuncDecl, list []ast.Stmt, idxFirst, idxLast int, pull bool, id int) (edits []textEdit, desc, why string) {
+	rs := &ast.BlockStmt{Lbrace: list[idxFirst].Pos(), List: list[idxFirst : idxLast+1], Rbrace: list[idxLast].End() - 1}
+	idx := idxFirst
+	// exits and constructs that tie the statements to their host
 	bad := ""
 	depthLoop := 0
 	var walk func(x ast.Node, inner int)
@@ -261,7 +334,7 @@ func (nf *nfPass) outlineStmt(f *ast.File, fd *ast.FuncDecl, rs *ast.RangeStmt, 
 		}
 		return false
 	}
-	for j := idx - 1; j >= 0; j-- {
+	for j := idx - 1; j >= 0 && pull; j-- {
 		ok := false
 		var vars []*types.Var
 		switch t := list[j].(type) {
@@ -347,8 +420,35 @@ func (nf *nfPass) outlineStmt(f *ast.File, fd *ast.FuncDecl, rs *ast.RangeStmt, 
 	})
 	qual, missing := nf.qualifier(f)
 	name := fmt.Sprintf("nfOutlined%d", id)
+	// a method of the host's receiver when the statements use it, under the name the role has in the reference
+	// tree when that name is free
+	var recvVar *types.Var
+	recvDecl := ""
+	if fd.Recv != nil && len(fd.Recv.List) == 1 && len(fd.Recv.List[0].Names) == 1 {
+		if rv, ok := nf.info.Defs[fd.Recv.List[0].Names[0]].(*types.Var); ok {
+			for _, v := range ins {
+				if v == rv && !written[v] {
+					recvVar = rv
+					recvDecl = "(" + rv.Name() + " " + types.TypeString(rv.Type(), qual) + ") "
+				}
+			}
+		}
+	}
+	if outlinePreferredName != "" {
+		free := nf.p.Types.Scope().Lookup(outlinePreferredName) == nil
+		if recvVar != nil {
+			o, _, _ := types.LookupFieldOrMethod(recvVar.Type(), true, nf.p.Types, outlinePreferredName)
+			free = o == nil
+		}
+		if free {
+			name = outlinePreferredName
+		}
+	}
 	var params, args, results, rets, lhs []string
 	for _, v := range ins {
+		if v == recvVar {
+			continue
+		}
 		params = append(params, v.Name()+" "+types.TypeString(v.Type(), qual))
 		args = append(args, v.Name())
 	}
@@ -380,12 +480,20 @@ func (nf *nfPass) outlineStmt(f *ast.File, fd *ast.FuncDecl, rs *ast.RangeStmt, 
 			}
 		}
 	}
-	fmt.Fprintf(&call, "%s %s %s(%s)", strings.Join(lhs, ", "), op, name, strings.Join(args, ", "))
+	callee := name
+	if recvVar != nil {
+		callee = recvVar.Name() + "." + name
+	}
+	fmt.Fprintf(&call, "%s %s %s(%s)", strings.Join(lhs, ", "), op, callee, strings.Join(args, ", "))
 	// parameters that are also results: the names are taken by the parameters, results stay unnamed
-	decl := fmt.Sprintf("\n\nfunc %s(%s) (%s) {\n%s\nreturn %s\n}\n", name, strings.Join(params, ", "), strings.Join(results, ", "), body, strings.Join(rets, ", "))
+	decl := fmt.Sprintf("\n\nfunc %s%s(%s) (%s) {\n%s\nreturn %s\n}\n", recvDecl, name, strings.Join(params, ", "), strings.Join(results, ", "), body, strings.Join(rets, ", "))
 	edits = append(edits, textEdit{file, nf.off(from), nf.off(to), call.String()})
 	edits = append(edits, textEdit{file, nf.off(fd.End()), nf.off(fd.End()), decl})
-	desc = fmt.Sprintf("the loop at %s taken out of %s as %s (1 call sites)", nf.short(rs.Pos()), fd.Name.Name, name)
+	what := "the loop"
+	if !pull {
+		what = "the statements"
+	}
+	desc = fmt.Sprintf("%s at %s taken out of %s as %s (1 call sites)", what, nf.short(rs.Pos()), fd.Name.Name, name)
 	return edits, desc, ""
 }
 
